@@ -107,6 +107,7 @@ struct Member
     uint32_t vc[MAXT]; // vector clock
     void *wait_lock;
     void *fake_stack; // asan
+    int nest;         // depth of nested (inline, team-of-one) regions this member is in
     void *tcb;        // thread control block / TLS of this member (nullptr: shares the encountering thread's)
     int ws_count;     // work-sharing constructs entered in this region
     int ws_cur;       // index of the work-share the member is in
@@ -217,7 +218,10 @@ static uint64_t g_step_limit = 0;
 static uint64_t g_serial_steps = 0;
 static bool g_detect = false;
 static uint32_t g_epoch = 1;
-static int g_nest = 0;
+static int g_nest_serial = 0; // nesting depth outside any region (always 0 in practice)
+// the nesting depth belongs to the member that opened the nested region: another member, scheduled while this one is
+// inside its nested (team-of-one) region, is still at level 1
+#define g_nest (*(g_cur ? &g_cur->nest : &g_nest_serial))
 
 // pct state
 static int g_prio[MAXT];
@@ -1190,6 +1194,7 @@ static void run_region(void (*fn)(void *), void *data, int T, int requested)
         m->local = 0;
         m->wait_lock = nullptr;
         m->fake_stack = nullptr;
+        m->nest = 0;
         m->ws_count = g_ws_preinit ? 1 : 0;
         m->ws_cur = 0;
         memset(m->vc, 0, sizeof(uint32_t) * T);
